@@ -24,6 +24,8 @@ MUTANTS = [
      'old': "    dist[:-1] = np.arange(len(target) + 1) * ins_cost\n    dist[-1] = dist[-2]\n    for s in source:\n        dist[1:-1] = np.minimum", 'new': "    dist[:-1] = 0\n    dist[-1] = dist[-2]\n    for s in source:\n        dist[1:-1] = np.minimum"},
     {'name': 'edit statistics: deletions counted among the substitutions', 'file': SA, 'old': '    nsub = nphn - ncor - ndel', 'new': '    nsub = nphn - ncor'},
     {'name': 'aggregate: substitutions summed from the insertions', 'file': ES, 'old': '            total_nb_subs += err.nb_subs', 'new': '            total_nb_subs += err.nb_inss'},
+    {'name': 'line summary: distance computed with substitution cost 2 while the alignment uses unit costs', 'file': ES,
+     'old': '        nb_errors = levenshtein_distance(ref, hyp)', 'new': '        nb_errors = levenshtein_distance(ref, hyp, sub_cost=2)'},
     {'name': 'line summary: reference length taken from the hypothesis', 'file': ES, 'old': '        ref_len = len(ref)', 'new': '        ref_len = len(hyp)'},
 ]
 PROOF_KEYS = ['levenshtein_distance', 'levenshtein_alignment', 'levenshtein_alignment_path',
@@ -168,9 +170,15 @@ def run(ctx):
         'the pyvc generator (re-reading the working tree) and discharged by z3 (cvc5 as second solver): distance = '
         'Wagner-Fischer value LEV(n,m) for all sequences and all costs >= 1; every returned alignment (pairs / path) '
         'projects onto both inputs and costs LEV(n,m) (backtrack-matrix certificate invariant); substring distance = '
-        'min_i SEL(i,m) (Sellers); ErrorsSummary.aggregate: every total is the sum over the list. levenshtein_alignment_substring, '
-        'edit_stats_for_alignment and ErrorsSummary.from_lists are NOT proved: bounded run-time contract (exhaustive small domain) only.')
-    keys = [(seqalign.PATH, k) for k in PROOF_KEYS] + [(seqalign.ES_PATH, 'ErrorsSummary.aggregate')]
+        'min_i SEL(i,m) (Sellers); ErrorsSummary.aggregate: every total is the sum over the list; edit_stats_for_alignment: the '
+        'five counts are the suffix-recursive counts of the alignment; ErrorsSummary.from_lists (over the contracts of '
+        'levenshtein_distance, levenshtein_alignment and edit_stats_for_alignment): nb_errors is the unit-cost distance and '
+        'nb_subs + nb_inss + nb_dels == nb_errors, with the lemmas LEV(ref,hyp) == LEV(hyp,ref) and cost == number of unequal '
+        'pairs proved by induction.  levenshtein_alignment_substring is NOT proved: bounded run-time contract (exhaustive '
+        'small domain) only.')
+    keys = [(seqalign.PATH, k) for k in PROOF_KEYS] + [(seqalign.PATH, 'edit_stats_for_alignment'),
+                                                      (seqalign.ES_PATH, 'ErrorsSummary.aggregate'),
+                                                      (seqalign.ES_PATH, 'ErrorsSummary.from_lists')]
     reps = vrun.verify(keys, seqalign.CONTRACTS, root=core.repo_root(), both=thorough)
     ctx.add_proof_reports(reps, clause='distance / alignment / path / substring distance equal the spec functions')
     # spec validation: LEV means "minimum over all edit scripts"
